@@ -3,7 +3,8 @@ LEVEL = "proof"
 RULE = ("the operator read off the real ResidualGive / ResidualTake with one-hot vectors on small random problems (nr 5..7, nt 4..8, "
         "all geometries / profiles / both boundary modes): every entry against the exact model operator (allowance 2^-40*S), symmetry "
         "of the implementation's matrix on the non-Dirichlet unknowns, and an exact rational LDL^T of its symmetrised interior block "
-        "(all pivots must be positive).  Distinct by (nr, nt, bc, geometry, profile)")
+        "(all pivots must be positive); the line matrices the real smoothers store against the code-level model (C06d: SPD) with an exact "
+        "LDL^T of the stored entries.  Distinct by (nr, nt, bc, geometry, profile)")
 
 
 def run(ctx):
@@ -15,6 +16,11 @@ def run(ctx):
     else:
         ctx.pipe([h, "matrix", "200", "7", "12"], "matrix", label="matrix-small")
         ctx.pipe([h, "matrix", "20", "9", "12"], "matrix", label="matrix-9x12")
+    # "the line blocks the smoothers factorise inherit both properties": every line matrix the REAL SmootherTake / SmootherGive objects
+    # store (dumped through the friend hook) against the code-level model whose matrices C06d proves SPD, entry by entry; oracle on the
+    # implementation: exact LDL^T of the stored (cyclic) tridiagonal matrices has positive pivots only
+    hc = ctx.build_harness("h_smcode")
+    ctx.pipe([hc, "smooth", "16" if ctx.tier == "quick" else "300", "13", "16"], "smcode", label="smoother-line-blocks")
     # the operators a GMGPolar object holds after setup(), also after setter / re-setup histories (boundary mode, strategy, size)
     hs = ctx.build_harness("h_solver")
     ctx.pipe([hs, "opsym", "12" if ctx.tier == "quick" else "120"], "trace", label="solver-object-operators")
@@ -23,4 +29,4 @@ def run(ctx):
                         "ellipticity alone), so that part is measured per generated case by the exact LDL^T",
                         "line blocks: C06d.circle_matrix_spd_dirichlet / radial_matrix_spd_dirichlet prove SPD (in the sense the tridiagonal "
                         "solver theorems of C14 need) for the stored line matrices of GMGModel/SmootherCode.lean in Dirichlet mode; those "
-                        "matrices are tied to the real SmootherGive / SmootherTake objects entry by entry in the C06 check"]
+                        "matrices are tied to the real SmootherGive / SmootherTake objects entry by entry in the smoother-line-blocks stage"]
